@@ -289,6 +289,15 @@ def run_chunk(idx, scens, timeout):
     # nondeterministic background events observed by the implementation are handed to the model as
     # annotations; the model checks that they were enabled
     def annotate(l, o):
+        c0 = l.split()[0] if l.split() else ''
+        # `@lost`: the implementation left the script here (an operation that was really cancelled, a start that failed):
+        # the directory-accounting component of the driver stops answering `fcounts` for this scenario
+        if (c0 == 'cancel' and o.startswith('cancelled')) or \
+                (c0 in ('restart', 'open', 'dmgsweep', 'flipsweep', 'toolsweep') and o.startswith(('err ', 'panic', 'crash')) and o != 'err AlreadyOpen'):
+            return annotate0(l, o) + ' @lost'
+        return annotate0(l, o)
+
+    def annotate0(l, o):
         if l.startswith('cfg ') and 'bloom=' in l:
             b = [t for t in l.split() if t.startswith('bloom=')][0][6:]
             if b not in ('off', '0') and b.count(',') == 2:
@@ -479,7 +488,19 @@ def judge(res, pdef):
             break
         if c in ('dmgsweep', 'crashsweep', 'flipsweep', 'faultsweep', 'cancelsweep', 'toolsweep', 'conc', 'killcheck') and impl.startswith('sweep ok'):
             impl = 'sweep ok'      # the count of damaged copies is reported, not compared
-        impl_only = c == 'fcounts' or c in pdef.get('impl_only_cmds', ()) or (c in pdef.get('impl_only_if_ct', ()) and ' rt=ct' in res['script'][0])
+        if c == 'fcounts':
+            # the one command that stays comparable after `nomodel`: the driver answers it from the proved accounting
+            # model (Acct) stepped in lock-step; `fcounts ?` / `disk=?` = the model could not follow (skipped)
+            if impl.startswith('fcounts ') and model.startswith('fcounts ') and model != 'fcounts ?' and not disagreed:
+                fi = dict(t.split('=', 1) for t in impl.split()[1:] if '=' in t)
+                fm = dict(t.split('=', 1) for t in model.split()[1:] if '=' in t)
+                diff = [k for k, v in fm.items() if v != '?' and fi.get(k) != v]
+                if diff:
+                    disagreed = True
+                    findings.append(Finding('model-disagreement' if is_p else 'aux-disagreement', res, i,
+                                            f'fcounts fields {diff}: impl=[{impl}] model=[{model}]'))
+            continue
+        impl_only = c in pdef.get('impl_only_cmds', ()) or (c in pdef.get('impl_only_if_ct', ()) and ' rt=ct' in res['script'][0])
         if impl != model and not nomodel and not impl_only and not disagreed:
             # remember the first disagreement, but keep looking: the oracle may confirm a violation a few
             # lines later (e.g. at the `states` probe that follows a delete)
